@@ -60,7 +60,7 @@ CLAIMS = {
          'Coq prefix-monotonicity proof over the fold characterisation + per-offset differential check'),
  'C14': ('proof', 'tagged ownership model (Model/Alias.v): C14_erasure (the tagged Aggregate is the functional one plus bookkeeping, for any spare capacity), C14_writes_fresh(_ops) (every write of Aggregate / Args.String / any operation sequence targets a freshly allocated array), '
          'C14_snapshot_unchanged, C14_reaggregate_same, C14_string_uncapped_refuted (the pre-fix Args.String wrote shared spare capacity), C14_interleave_safe / C14_concurrent_ops_safe (threads writing only their own fresh cells: every interleaving leaves the shared cells untouched and gives each thread its sequential result); '
-         'correspondence: alias graph observed with unsafe.SliceData = predicted. Partial: the Go memory model and real scheduling are not modelled (race detector run in the thorough tier only); nested Fields slices are not tagged', 'section 6 C14',
+         'correspondence: alias graph observed with unsafe.SliceData = predicted; the text renderer of the pp command (internal/main.go processInner, reached through the tagged hook internal/verif_hooks.go + internal/verifcmd) is run repeatedly on every snapshot of generated streams with every header in turn as -f and -m expression and the snapshot compared with a fresh parse. Partial: the Go memory model and real scheduling are not modelled (race detector run in the thorough tier only); nested Fields slices are not tagged', 'section 6 C14',
          'Coq proof over a provenance-tagged model of slices + alias-graph correspondence + immutability oracle'),
  'C18': ('proof', '37 theorems: C18_update_shape (exact case analysis of updateLocations for arbitrary root tables), C18_local_ends_with_rel, C18_remote_root_prefix, C18_class_table, C18_testmain_stays_stdlib, C18_longest_root_wins, C18_update_deterministic, C18_roots_backed / C18_roots_detected_from_disk '
          '(every detected root is backed by a file of the disk oracle), C18_guess_preserves, C18_find_module_*; correspondence on materialised layouts; oracle = the generating layout. A genuine defect found by the oracle (nested module never discovered) was fixed in /repo (02e5c66). '
@@ -110,8 +110,8 @@ def main():
     m = {
         'version': 1,
         'setup_cmd': 'sh scripts/setup.sh',
-        'hooks': {'guard': 'verif', 'enable': 'go build -tags verif compiles /repo/stack/verif_hooks.go (read-only accessors: VerifStepper over scanningState.scan, VerifLess/Equal/Similar/Merge, VerifReadLines, VerifFuncTypes, VerifRegexps); the harness falls back to a public-API-only build when the file no longer compiles and reports the hooked ops (step, sigops, rlines, ast, regex) as unchecked',
-                  'baseline_off_cmd': 'cd /repo && GOFLAGS=-mod=mod go test -vet=off -count=1 ./...', 'source_commits': ['dee5a37', '27ca8ce', 'd3d3f1d'], 'add_only': True},
+        'hooks': {'guard': 'verif', 'enable': 'go build -tags verif compiles /repo/stack/verif_hooks.go (read-only accessors: VerifStepper over scanningState.scan, VerifLess/Equal/Similar/Merge, VerifReadLines, VerifFuncTypes, VerifRegexps) and /repo/internal/verif_hooks.go + /repo/internal/verifcmd (VerifRenderText: the text renderer of the pp command on one snapshot; a command that renders every snapshot of a stream repeatedly and compares it with a fresh parse, used by op pp for C14); the harness falls back to a public-API-only build when the file no longer compiles and reports the hooked ops (step, sigops, rlines, ast, regex) as unchecked; when internal/verifcmd no longer builds op pp reports corr:pp-internal-hook-unavailable for C14',
+                  'baseline_off_cmd': 'cd /repo && GOFLAGS=-mod=mod go test -vet=off -count=1 ./...', 'source_commits': ['dee5a37', '27ca8ce', 'd3d3f1d', 'f60f6c1'], 'add_only': True},
         'engines': [
             {'name': 'coq-model', 'path': 'coq/', 'serves_properties': claimed, 'kind_free_text': 'hand-written Gallina model + theorems (Coq 8.16.1), property files under coq/theories/Properties'},
             {'name': 'correspondence', 'path': 'scripts/check.py', 'serves_properties': claimed,
